@@ -382,7 +382,10 @@ class _KafkaBrokerClient(ClientFactory):
     def _sendQueued(self):
         """Connection just came up, send the unsent requests."""
         for tReq in list(self.requests.values()):  # must copy, may del
-            if tReq.sent is None:
+            # Completing a request that expects no reply runs its callbacks
+            # right here; they may cancel (or close() may fail) requests which
+            # are later in our copy. Only send what is still queued.
+            if tReq.sent is None and self.requests.get(tReq.correlationId) is tReq:
                 self._sendRequest(tReq)
 
     def _cancelRequest(self, correlationId, deferred):
